@@ -71,6 +71,27 @@ theorem C04_blocking_lock_returns_iff_all_leaves_available_solo (pol : Policy) (
   obtain ⟨pre, e', h1, h2, _, h4, h5⟩ := hd.acq_stuck m e hw hn (fun p _ => (hq p.1).2) hnall
   exact ⟨pre, e', h1, h2, h4, h5⟩
 
+-- @theorem C04_blocking_and_try_agree_in_quiescent_states : blocking and try variants of the same acquisition answer the same question (leaf, sorting or owned collection, wrapper; any size, arrangement, nesting): run alone against the same quiescent table, either try returns true and the blocking call returns, both leaving the SAME table (the old one plus exactly the declared leaves), or try returns false leaving the table untouched and the blocking call is left waiting — never a third outcome (spin, abort, unwind, or a success over a busy leaf)
+theorem C04_blocking_and_try_agree_in_quiescent_states (pol : Policy) (t : Tid) (W : World)
+    (S : Shape) (hS : inOrder S = true) (m : Mode) (e : Env) (hnd : (declLeaves S).Nodup) (hq : Quiescent e) :
+    (solo pol t ((toRaw W S).try_ m) e = .done true (takeAll t (shapeFp W S m) e) ∧
+      solo pol t ((toRaw W S).acq m) e = .done () (takeAll t (shapeFp W S m) e)) ∨
+    (solo pol t ((toRaw W S).try_ m) e = .done false e ∧
+      ∃ e', solo pol t ((toRaw W S).acq m) e = .stuck e') := by
+  have hx := C04_blocking_lock_returns_iff_all_leaves_available_solo pol t W S hS m e hnd hq
+  have ht := C13_try_is_exact pol t W S m e (lockable_of_inOrder S hS) hnd hq
+  cases hb : (holdsOf S m).all (freeFor e) with
+  | true =>
+    rw [hb] at ht
+    exact Or.inl ⟨by simpa using ht, hx.1 hb⟩
+  | false =>
+    rw [hb] at ht
+    obtain ⟨_, e', _, _, h4, _⟩ := hx.2 hb
+    exact Or.inr ⟨by simpa using ht, e', h4⟩
+
+/-- non-vacuity: a boxed collection around a ref collection and an owned group is `inOrder` -/
+example : inOrder (.boxed (.seq [.refc (.seq [.rwlock 1, .mutex 2]), .owned 3 (.seq [.mutex 4, .rwlock 5])])) = true := by decide
+
 -- @theorem C04_scoped_closure_runs_exactly_once_iff_acquired : along every execution of every scoped session (scoped_lock / scoped_read / scoped_try_* on any shape, any answers of the raw locks, faults and user panics included) either the closure was entered exactly once — the acquisition had succeeded — or it was not entered at all and the call reports WouldBlock (the try failed) or a panic (the acquisition itself unwound); it never reports Ok without having run the closure, and never runs it twice
 theorem C04_scoped_closure_runs_exactly_once_iff_acquired (C : Ctx) (S : Shape) (ses : Session)
     (u u' : UserSt) (n : Nat) :
